@@ -93,3 +93,14 @@ pub open spec fn is_min_signed(s: Seq<u8>) -> bool {
 }
 // minimal unsigned big-endian: no leading zero byte
 pub open spec fn is_min_unsigned(s: Seq<u8>) -> bool { s.len() == 0 || s[0] != 0 }
+
+// canonical encoding of an integer: exists and is unique (two's complement fact, assumed)
+pub uninterp spec fn signed_bytes(i: int) -> Seq<u8>;
+pub broadcast axiom fn axiom_signed_bytes(i: int)
+    ensures is_min_signed(#[trigger] signed_bytes(i)), be_signed(signed_bytes(i)) == i;
+pub broadcast axiom fn axiom_signed_unique(s: Seq<u8>)
+    requires is_min_signed(s)
+    ensures #[trigger] signed_bytes(be_signed(s)) == s;
+// what BigInt::to_signed_bytes_be returns
+pub open spec fn u8n(i: int) -> Seq<u8> { if i == 0 { seq![0u8] } else { signed_bytes(i) } }
+
